@@ -35,7 +35,7 @@ fn main() {
 			thorough_cases: 400_000,
 			max_shrink: 3000,
 		},
-		b11::strat(if thorough { 40 } else { 32 }, if thorough { 60 } else { 15 }),
+		b11::strat(if thorough { 48 } else { 64 }, if thorough { 40 } else { 8 }),
 		b11::oracle,
 	);
 	c.part(
@@ -43,17 +43,17 @@ fn main() {
 			name: "b12",
 			rule: "offer / request / invoice / refund / static-invoice flows through the public builders; non-trivial = offer has >=3 optional fields and >=1 bit flip or alteration landed in signed content",
 			quick_cases: 6_000,
-			thorough_cases: 200_000,
+			thorough_cases: 100_000,
 			max_shrink: 3000,
 		},
-		b12::strat(if thorough { 64 } else { 40 }, if thorough { 20 } else { 5 }),
+		b12::strat(if thorough { 64 } else { 64 }, if thorough { 30 } else { 4 }),
 		b12::oracle,
 	);
 	c.part(
 		PartSpec {
 			name: "b1x_parse_arbitrary",
 			rule: "arbitrary / bech32-looking strings, random TLV streams and byte edits of valid encodings into every parser; non-trivial = non-empty input that differs from a valid encoding",
-			quick_cases: 60_000,
+			quick_cases: 120_000,
 			thorough_cases: 3_000_000,
 			max_shrink: 3000,
 		},
